@@ -30,12 +30,7 @@ ASSUMPTIONS = [
     "the count_mutations sweep and SpansBySamples (tskit tree iteration) are outside the theorems; their coordinate behaviour (same counts and mutation-to-edge map, spans x c) is checked on the real functions across scales",
 ]
 
-F5 = "Use fewer rescaling intervals"
-
-
 def classify_raise(r):
-    if r["exc"] == "AssertionError" and F5 in r["msg"]:
-        return "f5"
     return f"{r['exc']}"
 
 
@@ -109,12 +104,9 @@ def one_case(ctx, rng, res, stats, batch, checks, scales, corr=True, idx=None):
             if (base is None) != (not r1["ok"]):
                 who = r1 if base is not None else r0
                 cl = classify_raise(who)
-                if cl == "f5":
-                    stats["f5_flip"] += 1
-                else:
-                    res.violations.append(Violation(
-                        f"raises-at-one-scale:{method}:{cl}",
-                        f"{method}: date() {'raised' if base is not None else 'returned'} at coordinate scale c={c!r} but not at "
+                res.violations.append(Violation(
+                    f"raises-at-one-scale:{method}:{cl}",
+                    f"{method}: date() {'raised' if base is not None else 'returned'} at coordinate scale c={c!r} but not at "
                         f"c=1: {who['exc']}: {who['msg'][:120]}", replay))
             continue
         o1 = sc.outputs(r1["out"][0] if discrete else r1["out"])
@@ -189,7 +181,7 @@ def corpus(ctx, res, stats):
 
 
 def new_stats():
-    return dict(methods={}, raised={}, scales={}, max_relerr={}, f5_flip=0, driver_cases={})
+    return dict(methods={}, raised={}, scales={}, max_relerr={}, driver_cases={})
 
 
 def finish_batch(res, stats, batch, checks):
